@@ -20,6 +20,9 @@ def vec(v):
 
 
 # name -> (kind, function(rng, P) -> (component text without the trailing brace options, groups used (lists of atoms)), value type)
+EXTRA = {}        # components used by single checks only (C07: rmsd with an atomPermutation line)
+
+
 def make_components():
     C = {}
 
@@ -195,6 +198,16 @@ def make_components():
         R = [[x + rng.uniform(-0.5, 0.5) for x in P[i]] for i in range(NAT)]
         return "rmsd {\n%s  refPositions %s\n%s" % (grp("atoms", a), refpos(R, a), extra), [a]
     C["rmsd"] = ("scalar", rmsd)
+
+    def rmsd_perm(rng, P, extra=""):
+        """rmsd with one atomPermutation line; the reference is the current geometry with two atoms exchanged (plus noise), so that the
+        permuted reference is the one that fits"""
+        a = sorted(many(rng, 4, 7))
+        sw = list(range(len(a))); sw[0], sw[1] = sw[1], sw[0]
+        R = {a[i]: [x + rng.uniform(-0.2, 0.2) for x in P[a[sw[i]]]] for i in range(len(a))}
+        RR = [R.get(i, P[i]) for i in range(NAT)]
+        return "rmsd {\n%s  refPositions %s\n  atomPermutation %s\n%s" % (grp("atoms", a), refpos(RR, a), " ".join(str(a[sw[i]] + 1) for i in range(len(a))), extra), [a]
+    EXTRA["rmsd_perm"] = ("scalar", rmsd_perm)
 
     def eigenvector(rng, P, extra=""):
         a = sorted(many(rng, 4, 7))
